@@ -8,6 +8,9 @@ import (
 	"time"
 )
 
+// NilMessageName 是 Writer.WriteMessage 写入 nil 消息时使用的保留消息名，Reader.ReadMessage 据此还原为 nil。
+const NilMessageName = "<nil>"
+
 var outsideMessageDesc = &MessageDesc{
 	typeOf:      nil,
 	messageName: "",
